@@ -46,6 +46,9 @@ func Reject() []*e1.Program {
 		{"defer-closure", "x := 1\ndefer func() { tr.V(78, x) }()\nx = 2\nYIELD(60)\nx = 3"},
 		{"fallthrough-yielding", "switch tr.N(3, 2) {\ncase 0:\n\tYIELD(70)\n\tfallthrough\ncase 1:\n\tYIELD(71)\n}"},
 		{"fallthrough-into-yielding", "switch tr.N(3, 2) {\ncase 0:\n\ttr.E(4)\n\tfallthrough\ncase 1:\n\tYIELD(71)\n}"},
+		{"fallthrough-yielding-case-declares-name-used-by-next-case", "x := 5\nswitch tr.N(3, 2) {\ncase 0:\n\tx := 100\n\tYIELD(x)\n\tfallthrough\ncase 1:\n\tYIELD(x + 1)\n\tx++\ndefault:\n\tYIELD(-x)\n}\nYIELD(x)"},
+		{"range-func-left-early", "sq := func(yield func(int) bool) {\n\ttr.E(1)\n\tdefer tr.E(9)\n\tfor i := 0; i < 3; i++ {\n\t\tif !yield(i) {\n\t\t\ttr.E(8)\n\t\t\treturn\n\t\t}\n\t}\n\ttr.E(7)\n}\nfor v := range sq {\n\tYIELD(50 + v)\n\tif v == 1 {\n\t\tbreak\n\t}\n}\nYIELD(-1)"},
+		{"range-func2-returns-early", "kv := func(yield func(int, int) bool) {\n\tdefer tr.E(9)\n\tfor i := 0; i < 3; i++ {\n\t\tif !yield(i, i*i) {\n\t\t\ttr.E(8)\n\t\t\treturn\n\t\t}\n\t}\n}\nfor k, v := range kv {\n\tYIELD(k*10 + v)\n\tif tr.B(2) {\n\t\tRETNIL\n\t}\n}"},
 		{"range-func", "sq := func(yield func(int) bool) {\n\tfor i := 0; i < 3; i++ {\n\t\tif !yield(i * i) {\n\t\t\treturn\n\t\t}\n\t}\n}\nfor v := range sq {\n\tYIELD(v)\n}"},
 		{"range-func-no-yield", "sq := func(yield func(int) bool) {\n\tfor i := 0; i < 3; i++ {\n\t\tif !yield(i * i) {\n\t\t\treturn\n\t\t}\n\t}\n}\nfor v := range sq {\n\ttr.V(8, v)\n}"},
 		{"range-ptr-array", "arr := [3]int{5, 6, 7}\nfor i, v := range &arr {\n\tYIELD(i*100 + v)\n}"},
